@@ -1947,7 +1947,26 @@ type objectMetadata struct {
 // fill out the user metadata map with the metadata for the object
 // and return object meta properties as `ObjectMetadata`
 func (p *Posix) loadObjectMetaData(bucket, object string, fi *os.FileInfo, m map[string]string) objectMetadata {
-	ents, err := p.meta.ListAttributes(bucket, object)
+	return p.loadObjectMetaDataFile(nil, bucket, object, fi, m)
+}
+
+// fileAttrLister is implemented by metadata stores that can list the
+// attributes of an open file
+type fileAttrLister interface {
+	ListAttributesFile(f *os.File) ([]string, error)
+}
+
+// loadObjectMetaDataFile is loadObjectMetaData reading through the open
+// file f when it is given (and the metadata store keeps attributes with
+// the file)
+func (p *Posix) loadObjectMetaDataFile(f *os.File, bucket, object string, fi *os.FileInfo, m map[string]string) objectMetadata {
+	var ents []string
+	var err error
+	if fl, ok := p.meta.(fileAttrLister); ok && f != nil {
+		ents, err = fl.ListAttributesFile(f)
+	} else {
+		ents, err = p.meta.ListAttributes(bucket, object)
+	}
 	if err != nil || len(ents) == 0 {
 		return objectMetadata{}
 	}
@@ -1957,7 +1976,7 @@ func (p *Posix) loadObjectMetaData(bucket, object string, fi *os.FileInfo, m map
 			if !isValidMeta(e) {
 				continue
 			}
-			b, err := p.meta.RetrieveAttribute(nil, bucket, object, e)
+			b, err := p.meta.RetrieveAttribute(f, bucket, object, e)
 			if err != nil {
 				continue
 			}
@@ -1971,7 +1990,7 @@ func (p *Posix) loadObjectMetaData(bucket, object string, fi *os.FileInfo, m map
 
 	var result objectMetadata
 
-	b, err := p.meta.RetrieveAttribute(nil, bucket, object, contentTypeHdr)
+	b, err := p.meta.RetrieveAttribute(f, bucket, object, contentTypeHdr)
 	if err == nil {
 		result.ContentType = backend.GetPtrFromString(string(b))
 	}
@@ -1983,27 +2002,27 @@ func (p *Posix) loadObjectMetaData(bucket, object string, fi *os.FileInfo, m map
 		}
 	}
 
-	b, err = p.meta.RetrieveAttribute(nil, bucket, object, contentEncHdr)
+	b, err = p.meta.RetrieveAttribute(f, bucket, object, contentEncHdr)
 	if err == nil {
 		result.ContentEncoding = backend.GetPtrFromString(string(b))
 	}
 
-	b, err = p.meta.RetrieveAttribute(nil, bucket, object, contentDispHdr)
+	b, err = p.meta.RetrieveAttribute(f, bucket, object, contentDispHdr)
 	if err == nil {
 		result.ContentDisposition = backend.GetPtrFromString(string(b))
 	}
 
-	b, err = p.meta.RetrieveAttribute(nil, bucket, object, contentLangHdr)
+	b, err = p.meta.RetrieveAttribute(f, bucket, object, contentLangHdr)
 	if err == nil {
 		result.ContentLanguage = backend.GetPtrFromString(string(b))
 	}
 
-	b, err = p.meta.RetrieveAttribute(nil, bucket, object, cacheCtrlHdr)
+	b, err = p.meta.RetrieveAttribute(f, bucket, object, cacheCtrlHdr)
 	if err == nil {
 		result.CacheControl = backend.GetPtrFromString(string(b))
 	}
 
-	b, err = p.meta.RetrieveAttribute(nil, bucket, object, expiresHdr)
+	b, err = p.meta.RetrieveAttribute(f, bucket, object, expiresHdr)
 	if err == nil {
 		result.Expires = backend.GetPtrFromString(string(b))
 	}
@@ -3613,6 +3632,10 @@ func (p *Posix) GetObject(_ context.Context, input *s3.GetObjectInput) (*s3.GetO
 		return nil, s3err.GetAPIError(s3err.ErrNoSuchKey)
 	}
 
+	if !fi.IsDir() {
+		return p.getFileObject(input, bucket, object, objPath, versionId)
+	}
+
 	if p.versioningEnabled() {
 		isDelMarker, err := p.isObjDeleteMarker(bucket, object)
 		if err != nil {
@@ -3688,9 +3711,78 @@ func (p *Posix) GetObject(_ context.Context, input *s3.GetObjectInput) (*s3.GetO
 		}, nil
 	}
 
+	// not reached: file objects are served by getFileObject
+	return nil, s3err.GetAPIError(s3err.ErrNoSuchKey)
+}
+
+// getFileObject serves a file object. The file is opened once and its
+// size, attributes and data are all read through that open file: the object
+// may be replaced at any moment, and the response must not combine two
+// objects. (The sidecar metadata store keeps attributes by name and cannot
+// give this guarantee for them.)
+func (p *Posix) getFileObject(input *s3.GetObjectInput, bucket, object, objPath, versionId string) (*s3.GetObjectOutput, error) {
+	verifhook.At("posix.getobject.attrsread")
+	f, err := os.Open(objPath)
+	if errors.Is(err, fs.ErrNotExist) || errors.Is(err, syscall.ENOTDIR) {
+		if versionId != "" {
+			return nil, s3err.GetAPIError(s3err.ErrInvalidVersionId)
+		}
+		return nil, s3err.GetAPIError(s3err.ErrNoSuchKey)
+	}
+	if err != nil {
+		return nil, fmt.Errorf("open object: %w", err)
+	}
+	verifhook.At("posix.getobject.opened")
+	served := false
+	defer func() {
+		if !served {
+			f.Close()
+		}
+	}()
+
+	fi, err := f.Stat()
+	if err != nil {
+		return nil, fmt.Errorf("stat object: %w", err)
+	}
+	if fi.IsDir() {
+		return nil, s3err.GetAPIError(s3err.ErrNoSuchKey)
+	}
+
+	if p.versioningEnabled() {
+		_, err := p.meta.RetrieveAttribute(f, bucket, object, deleteMarkerKey)
+		if err != nil && !errors.Is(err, meta.ErrNoSuchKey) {
+			return nil, fmt.Errorf("get object delete-marker: %w", err)
+		}
+
+		// if the specified object version is a delete marker, return MethodNotAllowed
+		if err == nil {
+			if versionId != "" {
+				err = s3err.GetAPIError(s3err.ErrMethodNotAllowed)
+			} else {
+				err = s3err.GetAPIError(s3err.ErrNoSuchKey)
+			}
+			return &s3.GetObjectOutput{
+				DeleteMarker: getBoolPtr(true),
+				LastModified: backend.GetTimePtr(fi.ModTime()),
+			}, err
+		}
+	}
+
+	objSize := fi.Size()
+	startOffset, length, isValid, err := backend.ParseGetObjectRange(objSize, *input.Range)
+	if err != nil {
+		return nil, err
+	}
+
+	var contentRange string
+	if isValid {
+		contentRange = fmt.Sprintf("bytes %v-%v/%v",
+			startOffset, startOffset+length-1, objSize)
+	}
+
 	// If versioning is configured get the object versionId
 	if p.versioningEnabled() && versionId == "" {
-		vId, err := p.meta.RetrieveAttribute(nil, bucket, object, versionIdKey)
+		vId, err := p.meta.RetrieveAttribute(f, bucket, object, versionIdKey)
 		if errors.Is(err, meta.ErrNoSuchKey) {
 			versionId = nullVersionId
 		} else if err != nil {
@@ -3702,16 +3794,16 @@ func (p *Posix) GetObject(_ context.Context, input *s3.GetObjectInput) (*s3.GetO
 
 	userMetaData := make(map[string]string)
 
-	objMeta := p.loadObjectMetaData(bucket, object, &fi, userMetaData)
+	objMeta := p.loadObjectMetaDataFile(f, bucket, object, &fi, userMetaData)
 
-	b, err := p.meta.RetrieveAttribute(nil, bucket, object, etagkey)
+	b, err := p.meta.RetrieveAttribute(f, bucket, object, etagkey)
 	etag := string(b)
 	if err != nil {
 		etag = ""
 	}
 
 	var tagCount *int32
-	tags, err := p.getAttrTags(bucket, object)
+	tags, err := p.getAttrTagsFile(f, bucket, object)
 	if err != nil && !errors.Is(err, s3err.GetAPIError(s3err.ErrBucketTaggingNotFound)) {
 		return nil, err
 	}
@@ -3719,16 +3811,6 @@ func (p *Posix) GetObject(_ context.Context, input *s3.GetObjectInput) (*s3.GetO
 		tgCount := int32(len(tags))
 		tagCount = &tgCount
 	}
-
-	verifhook.At("posix.getobject.attrsread")
-	f, err := os.Open(objPath)
-	if errors.Is(err, fs.ErrNotExist) {
-		return nil, s3err.GetAPIError(s3err.ErrNoSuchKey)
-	}
-	if err != nil {
-		return nil, fmt.Errorf("open object: %w", err)
-	}
-	verifhook.At("posix.getobject.opened")
 
 	var checksums s3response.Checksum
 	var cType types.ChecksumType
@@ -3750,6 +3832,7 @@ func (p *Posix) GetObject(_ context.Context, input *s3.GetObjectInput) (*s3.GetO
 		body = &backend.FileSectionReadCloser{R: rdr, F: f}
 	}
 
+	served = true
 	return &s3.GetObjectOutput{
 		AcceptRanges:       backend.GetPtrFromString("bytes"),
 		ContentLength:      &length,
@@ -3886,10 +3969,40 @@ func (p *Posix) HeadObject(ctx context.Context, input *s3.HeadObjectInput) (*s3.
 		return nil, s3err.GetAPIError(s3err.ErrNoSuchKey)
 	}
 
-	if p.versioningEnabled() {
-		isDelMarker, err := p.isObjDeleteMarker(bucket, object)
+	// size and attributes of a file object are read through one open
+	// file, so that they belong to the same object (see getFileObject)
+	var f *os.File
+	if !fi.IsDir() {
+		f, err = os.Open(objPath)
+		if errors.Is(err, fs.ErrNotExist) || errors.Is(err, syscall.ENOTDIR) {
+			if versionId != "" {
+				return nil, s3err.GetAPIError(s3err.ErrInvalidVersionId)
+			}
+			return nil, s3err.GetAPIError(s3err.ErrNoSuchKey)
+		}
 		if err != nil {
-			return nil, err
+			return nil, fmt.Errorf("open object: %w", err)
+		}
+		defer f.Close()
+		fi, err = f.Stat()
+		if err != nil {
+			return nil, fmt.Errorf("stat object: %w", err)
+		}
+	}
+
+	if p.versioningEnabled() {
+		var isDelMarker bool
+		if f != nil {
+			_, err := p.meta.RetrieveAttribute(f, bucket, object, deleteMarkerKey)
+			if err != nil && !errors.Is(err, meta.ErrNoSuchKey) {
+				return nil, fmt.Errorf("get object delete-marker: %w", err)
+			}
+			isDelMarker = err == nil
+		} else {
+			isDelMarker, err = p.isObjDeleteMarker(bucket, object)
+			if err != nil {
+				return nil, err
+			}
 		}
 
 		// if the specified object version is a delete marker, return MethodNotAllowed
@@ -3906,7 +4019,7 @@ func (p *Posix) HeadObject(ctx context.Context, input *s3.HeadObjectInput) (*s3.
 	}
 
 	if p.versioningEnabled() && versionId == "" {
-		vId, err := p.meta.RetrieveAttribute(nil, bucket, object, versionIdKey)
+		vId, err := p.meta.RetrieveAttribute(f, bucket, object, versionIdKey)
 		if err != nil && !errors.Is(err, meta.ErrNoSuchKey) {
 			return nil, fmt.Errorf("get object versionId: %v", err)
 		}
@@ -3915,9 +4028,9 @@ func (p *Posix) HeadObject(ctx context.Context, input *s3.HeadObjectInput) (*s3.
 	}
 
 	userMetaData := make(map[string]string)
-	objMeta := p.loadObjectMetaData(bucket, object, &fi, userMetaData)
+	objMeta := p.loadObjectMetaDataFile(f, bucket, object, &fi, userMetaData)
 
-	b, err := p.meta.RetrieveAttribute(nil, bucket, object, etagkey)
+	b, err := p.meta.RetrieveAttribute(f, bucket, object, etagkey)
 	etag := string(b)
 	if err != nil {
 		etag = ""
@@ -3949,7 +4062,7 @@ func (p *Posix) HeadObject(ctx context.Context, input *s3.HeadObjectInput) (*s3.
 	var checksums s3response.Checksum
 	var cType types.ChecksumType
 	if input.ChecksumMode == types.ChecksumModeEnabled {
-		checksums, err = p.retrieveChecksums(nil, bucket, object)
+		checksums, err = p.retrieveChecksums(f, bucket, object)
 		if err != nil && !errors.Is(err, meta.ErrNoSuchKey) {
 			return nil, fmt.Errorf("get object checksums: %w", err)
 		}
@@ -4655,8 +4768,12 @@ func (p *Posix) GetObjectTagging(_ context.Context, bucket, object string) (map[
 }
 
 func (p *Posix) getAttrTags(bucket, object string) (map[string]string, error) {
+	return p.getAttrTagsFile(nil, bucket, object)
+}
+
+func (p *Posix) getAttrTagsFile(f *os.File, bucket, object string) (map[string]string, error) {
 	tags := make(map[string]string)
-	b, err := p.meta.RetrieveAttribute(nil, bucket, object, tagHdr)
+	b, err := p.meta.RetrieveAttribute(f, bucket, object, tagHdr)
 	if errors.Is(err, fs.ErrNotExist) || errors.Is(err, syscall.ENOTDIR) {
 		return nil, s3err.GetAPIError(s3err.ErrNoSuchKey)
 	}
